@@ -29,7 +29,7 @@ fn main() {
     }
     if id == "C17" && args.get(2).map(|s| s.as_str()) == Some("--gen-corpus") {
         use vharness::mutate;
-        let root = std::path::Path::new(vharness::runner::VERIF_ROOT).join("corpus");
+        let root = std::path::Path::new(vharness::runner::verif_root()).join("corpus");
         for (i, b) in mutate::bases().iter().enumerate() {
             let d = root.join("raw_proof");
             std::fs::create_dir_all(&d).unwrap();
@@ -183,7 +183,7 @@ fn main() {
 }
 
 fn run_regressions(ctx: &Ctx, check: &checks::Check) {
-    let dir = std::path::Path::new(vharness::runner::VERIF_ROOT)
+    let dir = std::path::Path::new(vharness::runner::verif_root())
         .join("replays/regress")
         .join(check.id);
     let Ok(rd) = std::fs::read_dir(&dir) else {
